@@ -390,6 +390,26 @@ def u_stan_guards(ip):
         c.oblige("guard_raises_value_error", res.cls == "ValueError")
 
 
+@unit("C16.stan_epochs_results_are_independent", "C16", [f"{WARMUP}::stan_epochs"], assumptions=["concrete arguments (200, 100, term_duration=10) and (1000, 1000)"])
+def u_stan_independent(ip):
+    """every call returns a schedule of its own: editing one returned schedule (appending, removing epochs, changing a configuration's fields) leaves
+    what a later call with the same arguments returns untouched - that later schedule is again the documented, valid one."""
+    c = ip.ctx
+    fn = ip.repo(f"{WARMUP}::stan_epochs")
+    for args, kw in (([200, 100], {"term_duration": 10}), ([1000, 1000], {})):
+        first = ip.call(fn, list(args), dict(kw))
+        snap = [(e.f["type"], e.f["duration"], e.f["thinning"]) for e in first]
+        first_objs = list(first)
+        ip.setattr(first[-1], "thinning", 7)
+        ip.setattr(first[1], "duration", 3)
+        first.pop(0)
+        first.append(first[-1])
+        second = ip.call(fn, list(args), dict(kw))
+        tag = f".w{args[0]}"
+        c.oblige("second_call_returns_the_documented_schedule_again" + tag, [(e.f["type"], e.f["duration"], e.f["thinning"]) for e in second] == snap)
+        c.oblige("second_call_returns_objects_of_its_own" + tag, second is not first and not any(any(e is o for o in first_objs) for e in second))
+
+
 BUILDER = "liesel/goose/builder.py"
 
 
